@@ -47,6 +47,10 @@ pub struct Job {
     /// number of live allocations after reset() is compared between two phases
     #[serde(default)]
     pub growth: usize,
+    /// the generator is CONSTRUCTED for this protocol and re-targeted to cfg.P through the public
+    /// `state.version` field after the warm-up calls (the judged pickle is a protocol-cfg.P pickle)
+    #[serde(default)]
+    pub retarget_from: Option<usize>,
 }
 
 fn yes() -> bool {
@@ -69,15 +73,23 @@ pub fn run_job(job: &Job) -> Value {
         Vec::new()
     };
     let outcome = catch_unwind(AssertUnwindSafe(|| {
+        let mut first_cfg = job.cfg.clone();
+        if let Some(p0) = job.retarget_from { first_cfg.p = p0; }
         let mut g = build_generator(
-            &job.cfg,
+            &first_cfg,
             if job.mode == "seed" {
                 Some(job.seed)
             } else {
                 None
             },
         );
-        for _ in 0..job.warm {
+        for k in 0..=job.warm {
+            if k == job.warm {
+                if job.retarget_from.is_some() {
+                    g.state.version = pickle_fuzzer::Version::try_from(job.cfg.p).expect("protocol");
+                }
+                break;
+            }
             let _ = if job.mode == "seed" {
                 g.generate()
             } else {
